@@ -12,6 +12,12 @@ Case kinds
   cs      one call with an arbitrary carried-over list (duplicates, out of range, not produced by the sampler)
           and arbitrary initial thresholds
   assign  assign_sample_nums with a scripted stub generator, and with the real cryptorandom SHA256
+  renumber  an operation sequence on ONE list of real CVR objects (built with the constructor or loaded with
+          CVR.from_dict, optionally carrying 'sampled': True and stale sample numbers): number(seed or scripted
+          hashes) -> consistent_sampling (sets .sampled) -> number(another seed) -> ... ; after EVERY numbering the
+          k-th card must hold the k-th output of a fresh generator with that seed (the model's assignSampleNums is a
+          function of the stream and the position only), and every selection must be the union of the per-contest
+          prefixes under the numbers a fresh list would have got
   prep    prep_comparison_sample on id lists (missing ids, unequal lengths, mismatches)
   data    mvrs_to_data's filter alone: audit type, use_style, use_all, threshold None
   proved  Assertion.set_p_values over several calls with a scripted (non-monotone) test
@@ -25,7 +31,7 @@ NAME = "sampling"
 RULE = ("rounds: 1-40 cards, 1-5 contests, random styles (cards listing nothing, phantoms), distinct random sample "
         "numbers (256-bit or small), 1-4 rounds of non-decreasing size vectors incl. 0 and the maximum, scratch/continue "
         "per round; malformed streams: equal sample numbers, sizes beyond the maximum (IndexError), decreasing sizes; "
-        "exhaustive part: every style sequence of <=4 (quick) / <=5 (thorough) cards x 2 contests x every feasible "
+        "renumber: number(seed) -> consistent_sampling -> number(other seed) on one list (constructor or from_dict with sampled flags), every numbering compared with a fresh generator; exhaustive part: every style sequence of <=4 (quick) / <=5 (thorough) cards x 2 contests x every feasible "
         "size vector; cs/assign/prep/data/proved as described in the module docstring; non-trivial = at least two "
         "contests with different positive sizes sharing a card, or an error branch; distinct = distinct canonical input")
 EXHAUSTIVE = {"quick": False, "thorough": False}
@@ -200,6 +206,8 @@ def impl(case):
         script = [str(int_from_hash(g.nextRandom())) for _ in range(n)]
         return {"st": "ok", "nums": [str(int(c.sample_num)) for c in cvrs], "script": script,
                 "det": [int(c.sample_num) for c in cvrs] == [int(c.sample_num) for c in cvrs2]}
+    if k == "renumber":
+        return _impl_renumber(case)
     if k == "prep":
         from shangrla.core.Audit import CVR
         ms = [CVR(id=i, votes={}) for i in case["mvr"]]
@@ -245,6 +253,59 @@ def impl(case):
     raise ValueError(k)
 
 
+class _Stub:  # scripted generator: the i-th call returns the i-th scripted 32-byte hash
+    def __init__(self, hs):
+        self.hs, self.i = hs, 0
+
+    def nextRandom(self):
+        h = self.hs[self.i]; self.i += 1
+        return h
+
+
+def _script(op, n):
+    """the first n outputs of a fresh generator for the numbering `op` (independent of the list being numbered)"""
+    from cryptorandom.cryptorandom import SHA256, int_from_hash
+    if op.get("hashes") is not None:
+        return [str(int_from_hash(bytes.fromhex(h))) for h in op["hashes"][:n]]
+    g = SHA256(op["seed"])
+    return [str(int_from_hash(g.nextRandom())) for _ in range(n)]
+
+
+def _impl_renumber(case):
+    from shangrla.core.Audit import CVR
+    from cryptorandom.cryptorandom import SHA256
+    rng = random.Random(case["vseed"])
+    cards = case["cards"]
+    if case["via"] == "from_dict":
+        ds = []
+        for i, cd in enumerate(cards):
+            d = {"id": f"c{i}", "votes": _votes(rng, cd["styles"]), "phantom": bool(cd["phantom"])}
+            if cd.get("sampled") is not None:
+                d["sampled"] = cd["sampled"]
+            if cd.get("num") is not None:
+                d["sample_num"] = int(cd["num"])
+            ds.append(d)
+        cvrs = CVR.from_dict(ds)
+    else:
+        cvrs = [CVR(id=f"c{i}", votes=_votes(rng, cd["styles"]), phantom=bool(cd["phantom"]),
+                    **({} if cd.get("sampled") is None else {"sampled": cd["sampled"]}),
+                    **({} if cd.get("num") is None else {"sample_num": int(cd["num"])}))
+                for i, cd in enumerate(cards)]
+    steps, last = [], None
+    for op in case["ops"]:
+        if op["op"] == "number":
+            prng = _Stub([bytes.fromhex(h) for h in op["hashes"]]) if op.get("hashes") is not None else SHA256(op["seed"])
+            CVR.assign_sample_nums(cvrs, prng)
+            last = [str(int(c.sample_num)) for c in cvrs]
+            steps.append({"nums": last})
+        else:
+            contests = _mk_contests([{"id": c, "size": nsz, "thr": None} for c, nsz in zip(case["contests"], op["sizes"])])
+            sel = CVR.consistent_sampling(cvrs, contests)
+            steps.append({"sel": [int(i) for i in sel], "thr": [_thr(contests[c]) for c in case["contests"]],
+                          "flags": [bool(c.sampled) for c in cvrs]})
+    return {"st": "ok", "steps": steps, "nums": last}
+
+
 def eval_frac(s):
     from fractions import Fraction
     return Fraction(s)
@@ -278,6 +339,10 @@ def request(case):
             g = SHA256(case["seed"])
             script = [str(int_from_hash(g.nextRandom())) for _ in range(case["n"])]
         return ("sampling", "assign", {"n": case["n"], "nums": script})
+    if k == "renumber":
+        # the model numbers a list from the stream and the position only: ask it about the LAST numbering
+        last = [op for op in case["ops"] if op["op"] == "number"][-1]
+        return ("sampling", "assign", {"n": len(case["cards"]), "nums": _script(last, len(case["cards"]))})
     if k == "prep":
         return ("sampling", "prep", {"mvr": case["mvr"], "cvr": case["cvr"], "order": case["order"]})
     if k == "data":
@@ -342,6 +407,9 @@ def compare(case, ir, mr):
         return None
     if k == "assign":
         return None if ir["nums"] == mr["nums"] else "sample numbers differ"
+    if k == "renumber":
+        return None if ir["nums"] == mr["nums"] else ("sample numbers after the last numbering of the sequence differ "
+                                                       "from the model's (a function of stream and position only)")
     if k == "prep":
         return None if (ir["mvr"], ir["cvr"]) == (mr["mvr"], mr["cvr"]) else "sorted id lists differ"
     if k == "data":
@@ -372,6 +440,14 @@ def signature(case, ir):
         return f"trivial:rounds;{tag}"
     if k == "cs":
         return "cs;" + ("scratch" if case["prev"] is None else "prev")
+    if k == "renumber":
+        ops = case["ops"]
+        flagged = any(cd.get("sampled") for cd in case["cards"])
+        drawn = any(o["op"] == "sample" and any(o["sizes"]) for o in ops[:-1]) and any(
+            o["op"] == "number" for i, o in enumerate(ops) if any(p["op"] == "sample" and any(p["sizes"]) for p in ops[:i]))
+        if not case["cards"] or not (flagged or drawn):
+            return "trivial:renumber"
+        return f"renumber;{case['via']};" + ("flagged" if flagged else "") + ("+drawn" if drawn else "")
     if k == "proved":
         p = ir["proved"]
         return "proved;" + ("flip" if (True in p and False in p) else "const")
@@ -495,6 +571,46 @@ def gen_assign(rng):
             "vseed": rng.randint(0, 10 ** 6)}
 
 
+def gen_renumber(rng):
+    """number -> draw -> number again (other seed / same seed / scripted stream) on one list; cards may arrive with
+    'sampled': True (a reloaded list) and stale numbers"""
+    n = rng.choice([1, 2, 3, 4, 5, 6, 8, 12, 20])
+    ncon = rng.randint(1, 3)
+    cids = CIDS[:ncon]
+    cards = _cards(rng, n, cids, "small")
+    via = rng.choice(["ctor", "from_dict", "from_dict"])
+    preset = rng.choice(["none", "none", "some", "all"])
+    for cd in cards:
+        stale = cd.pop("num")
+        cd["num"] = stale if rng.chance(0.4) else None
+        cd["sampled"] = {"none": None if via == "from_dict" else False, "some": rng.chance(0.4), "all": True}[preset]
+        if preset == "none" and rng.chance(0.3):
+            cd["sampled"] = False
+
+    def number():
+        if rng.chance(0.35):
+            return {"op": "number", "seed": None, "hashes": [("%064x" % rng.getrandbits(256)) for _ in range(n)]}
+        return {"op": "number", "seed": rng.choice([1234567890, 987654321, rng.randint(0, 10 ** 9), rng.getrandbits(80)])}
+
+    def sample():
+        sizes = []
+        for c in cids:
+            a = _avail(cards, c)
+            sizes.append(rng.choice([a, rng.randint(0, a), rng.randint(min(1, a), a)]))
+        return {"op": "sample", "sizes": sizes}
+    ops = [number()]
+    for _ in range(rng.choice([1, 1, 2, 3])):
+        if rng.chance(0.85):
+            ops.append(sample())
+        nxt = number()
+        if rng.chance(0.15):
+            nxt = dict(ops[0])                   # the same seed again
+        ops.append(nxt)
+    if rng.chance(0.6):
+        ops.append(sample())
+    return {"kind": "renumber", "cards": cards, "via": via, "contests": cids, "ops": ops, "vseed": rng.randint(0, 10 ** 6)}
+
+
 def gen_prep(rng):
     n = rng.randint(0, 8)
     ids = [f"c{i}" for i in range(n)]
@@ -560,6 +676,15 @@ def corpus():
         {"kind": "cs", "cards": three, "contests": [{"id": "A", "size": 0, "thr": 7}, {"id": "B", "size": 1, "thr": None}],
          "prev": [1, 1, 0], "vseed": 7},
         {"kind": "assign", "n": 6, "seed": 1234567890, "hashes": None, "vseed": 8},
+        # number, draw, number again with another seed; and a list reloaded with 'sampled': True
+        {"kind": "renumber", "via": "ctor", "contests": ["A", "B"], "vseed": 9,
+         "cards": [{"styles": s_, "phantom": False, "num": None, "sampled": False} for s_ in
+                   (["A", "B"], ["A"], ["A"], ["B"], ["A", "B"], ["A"], ["B"], ["A", "B"])],
+         "ops": [{"op": "number", "seed": 1234567890}, {"op": "sample", "sizes": [2, 1]},
+                 {"op": "number", "seed": 987654321}, {"op": "sample", "sizes": [2, 1]}]},
+        {"kind": "renumber", "via": "from_dict", "contests": ["A"], "vseed": 10,
+         "cards": [{"styles": ["A"], "phantom": False, "num": 5 - i, "sampled": bool(i % 2)} for i in range(5)],
+         "ops": [{"op": "number", "seed": 1234567890}, {"op": "sample", "sizes": [3]}]},
         {"kind": "proved", "limit": "1/20", "ps": ["1/2", "1/100", "1/2"], "init": False},
     ]
 
@@ -583,8 +708,10 @@ def gen(rng, n, tier):
             yield gen_rounds(rng, n=rng.randint(2, 6), ncon=rng.randint(2, 3), nr=rng.randint(3, 4))
         elif u < 0.75:
             yield gen_cs(rng)
-        elif u < 0.80:
+        elif u < 0.78:
             yield gen_assign(rng)
+        elif u < 0.82:
+            yield gen_renumber(rng)
         elif u < 0.87:
             yield gen_prep(rng)
         elif u < 0.95:
@@ -626,6 +753,36 @@ def oracle_c07(case, ir):
             return {"what": "the k-th card did not get the k-th output of the generator", "nums": ir["nums"][:3]}
         if not ir["det"]:
             return {"what": "same seed gave different sample numbers for different records"}
+        return None
+    if k == "renumber":
+        if ir.get("st") != "ok":
+            return {"what": f"numbering / sampling sequence raised {ir.get('err')}: {ir.get('msg')}"}
+        n = len(case["cards"])
+        want = None
+        for j, (op, res) in enumerate(zip(case["ops"], ir["steps"])):
+            if op["op"] == "number":
+                want = _script(op, n)
+                if res["nums"] != want:
+                    bad = [i for i in range(n) if res["nums"][i] != want[i]]
+                    return {"what": f"operation {j} (numbering with {'scripted stream' if op.get('hashes') is not None else 'seed ' + str(op['seed'])}"
+                                    f", after {[o['op'] for o in case['ops'][:j]]}): cards {bad} do not hold the output "
+                                    f"of a fresh generator for their position -- sample numbers depend on history",
+                            "cards_sampled_flag_on_entry": [cd.get("sampled") for cd in case["cards"]]}
+            elif want is not None and len(set(want)) == n:
+                fresh = {"cards": [{"styles": cd["styles"], "num": w} for cd, w in zip(case["cards"], want)],
+                         "contests": [{"id": c} for c in case["contests"]]}
+                pf = _prefixes(fresh, op["sizes"])
+                union = set()
+                for _, first in pf:
+                    union |= set(first)
+                sel = [i for i in _order(fresh["cards"]) if i in union]
+                if res["sel"] != sel:
+                    return {"what": f"operation {j}: selected {res['sel']}; the union of the per-contest prefixes under the "
+                                    f"numbers a fresh list gets from the same stream is {sel}", "sizes": op["sizes"]}
+                for ci, ((mine, first), nc) in enumerate(zip(pf, op["sizes"])):
+                    if nc >= 1 and res["thr"][ci] != want[first[-1]]:
+                        return {"what": f"operation {j} contest {case['contests'][ci]}: threshold {res['thr'][ci]} is not "
+                                        f"the sample number of its {nc}-th card under a fresh numbering"}
         return None
     if k != "rounds" or not case["use_style"] or not _valid_cards(case):
         return None
